@@ -145,3 +145,31 @@ package keeper
 //@ ensures [rejected_claim_changes_nothing] err != nil ==> bank.bal == old(bank.bal)
 //@ ensures [other_accounts_untouched] forall a addr :: a != acc(addr) && a != module("dispute") ==> bank.bal[a] == old(bank.bal[a])
 //@ ensures [other_voters_untouched] forall d int :: forall v bytes :: d != id || v != bytes(addr) ==> (has(dispute.Voter, pair(d, v)) <==> old(has(dispute.Voter, pair(d, v)))) && dispute.Voter[pair(d, v)] == old(dispute.Voter[pair(d, v)])
+
+// ---- dispute rounds (C12, C02) ----
+
+//@ func (k Keeper).CloseDispute(ctx, id) (err)
+//@ modifies dispute.Disputes
+//@ ensures [closed_and_no_longer_pending_execution] err == nil ==> has(dispute.Disputes, id) && !dispute.Disputes[id].Open && !dispute.Disputes[id].PendingExecution
+//@ ensures [nothing_else_about_the_dispute_changes] err == nil ==> dispute.Disputes[id].DisputeStatus == old(dispute.Disputes[id].DisputeStatus) && dispute.Disputes[id].DisputeRound == old(dispute.Disputes[id].DisputeRound) && dispute.Disputes[id].SlashAmount == old(dispute.Disputes[id].SlashAmount) && dispute.Disputes[id].FeeTotal == old(dispute.Disputes[id].FeeTotal) && dispute.Disputes[id].BurnAmount == old(dispute.Disputes[id].BurnAmount) && dispute.Disputes[id].DisputeEndTime == old(dispute.Disputes[id].DisputeEndTime)
+//@ ensures [other_disputes_untouched] forall d int :: d != id ==> (has(dispute.Disputes, d) <==> old(has(dispute.Disputes, d))) && dispute.Disputes[d] == old(dispute.Disputes[d])
+//@ ensures [unknown_dispute_rejected] !old(has(dispute.Disputes, id)) ==> err != nil && nothing_written()
+
+// NextDisputeId walks the dispute store downwards (range iteration, not modelled): trusted; the id it returns is unused.
+//@ func (k Keeper).NextDisputeId(ctx) (id)
+//@ trusted
+//@ ensures [id_is_unused] forall d int :: has(dispute.Disputes, d) ==> d < id
+//@ ensures [reads_only] nothing_written()
+
+//@ func (k Keeper).PayDisputeFee(ctx, proposer, fee, fromBond, hashId) (err)
+//@ trusted
+//@ modifies reporter.*, staking.*, bank.bal, dispute.DisputeFeePayer
+
+//@ func (k Keeper).AddDisputeRound(ctx, sender, dispute, msg) (err)
+//@ requires [round_counter_below_2_64] dispute.DisputeRound < 18446744073709551615
+//@ modifies dispute.Disputes, dispute.Votes, reporter.*, staking.*, bank.bal, dispute.DisputeFeePayer, A_*
+//@ ensures [only_an_open_unresolved_unexpired_dispute_gets_a_new_round] err == nil ==> dispute.DisputeStatus == types.Unresolved && dispute.Open && dispute.DisputeEndTime >= blocktime(ctx)
+//@ ensures [superseded_round_is_closed_and_not_pending_execution] err == nil ==> has(dispute.Disputes, dispute.DisputeId) && !dispute.Disputes[dispute.DisputeId].Open && !dispute.Disputes[dispute.DisputeId].PendingExecution
+//@ ensures [new_round_is_stored_under_an_unused_id_and_votes_start] err == nil ==> ret(NextDisputeId, 0) != dispute.DisputeId && has(dispute.Disputes, ret(NextDisputeId, 0)) && dispute.Disputes[ret(NextDisputeId, 0)].DisputeStatus == types.Voting && dispute.Disputes[ret(NextDisputeId, 0)].DisputeRound == dispute.DisputeRound + 1 && dispute.Disputes[ret(NextDisputeId, 0)].DisputeId == ret(NextDisputeId, 0) && has(dispute.Votes, ret(NextDisputeId, 0)) && dispute.Votes[ret(NextDisputeId, 0)].VoteStart == blocktime(ctx) && dispute.Votes[ret(NextDisputeId, 0)].VoteEnd == blocktime(ctx) + 172800000000000
+//@ ensures [round_fee_doubles_and_is_capped_by_the_slash_amount] err == nil ==> arg(PayDisputeFee, fee).Amount <= dispute.SlashAmount && dispute.Disputes[ret(NextDisputeId, 0)].FeeTotal == dispute.FeeTotal + arg(PayDisputeFee, fee).Amount
+//@ ensures [other_disputes_untouched] forall d int :: d != dispute.DisputeId && d != ret(NextDisputeId, 0) ==> (has(dispute.Disputes, d) <==> old(has(dispute.Disputes, d))) && dispute.Disputes[d] == old(dispute.Disputes[d])
